@@ -1,6 +1,7 @@
 package sam
 
 import (
+	"github.com/virus-evolution/gofasta/pkg/verifhook"
 	"errors"
 	"io"
 	"sync"
@@ -132,6 +133,7 @@ func blockToFastaRecord(ch_in chan samRecords, ch_out chan fastaio.FastaRecord, 
 		if err != nil {
 			ch_err <- err
 		}
+		verifhook.Jitter("sam.blockToFastaRecord", group.idx)
 		ch_out <- getFastaRecord(rawseq, id, group.idx, trim, pad, trimstart, trimend)
 	}
 	return
